@@ -87,10 +87,28 @@ class Scanner:
             elif isinstance(x, list):
                 for y in x:
                     walk(y)
+        seen_defs = set()
+
+        def const_bodies(x):
+            # tables the family refers to by name (or through a promoted reference to one)
+            if isinstance(x, dict):
+                if x.get("k") == "const" and "def" in x:
+                    d_ = f"{x['def']}::promoted[{x['promoted']}]" if "promoted" in x else x["def"]
+                    cb_ = prog.bodies.get(d_)
+                    if cb_ is not None and d_ not in seen_defs and (("promoted" in x) or cb_.kind in ("const", "static")):
+                        seen_defs.add(d_)
+                        walk(cb_.blocks)
+                        const_bodies(cb_.blocks)
+                for y in x.values():
+                    const_bodies(y)
+            elif isinstance(x, list):
+                for y in x:
+                    const_bodies(y)
         for p in fam:
             b = prog.bodies.get(p)
             if b is not None:
                 walk(b.blocks)
+                const_bodies(b.blocks)
         self.cap = max([i for i in ints if i < 1000] + [1]) + 2
         cuts = set(PRED_BOUNDS) | {0, 0x110000}
         for c in chars:
@@ -120,6 +138,10 @@ class Scanner:
             return self.pure(pb)
         if "fn" in o:
             return ("fn", o["fn"])
+        if "def" in o and "promoted" not in o:
+            cb = self.prog.bodies.get(o["def"])
+            if cb is not None and cb.kind in ("const", "static"):
+                return self.pure(cb)       # a named table: `const WHITESPACE: [char; 4] = [..]`
         if o.get("ty") == "()":
             return UNIT
         return None
@@ -223,6 +245,8 @@ class Scanner:
             v = self.operand(fr, body, rv["o"])
             if v is not None and v[0] in ("i", "i+", "b", "S"):
                 return v
+            if v is not None and v[0] == "arr" and "Unsize" in str(rv.get("ck")):
+                return v        # `&[char; N]` as `&[char]`
             if v is not None and v[0] == "c":
                 return ("cc", v[1])     # a char's code as a number: only compared, never counted
             return None
@@ -243,6 +267,8 @@ class Scanner:
             ops = tuple(self.operand(fr, body, o) for o in rv["ops"])
             if rv.get("agg") == "tuple":
                 return ("t", ops)
+            if rv.get("agg") == "array":
+                return ("arr", ops)
             if rv.get("agg") == "closure":
                 return ("cl", rv["def"], ops)
             if rv.get("agg") == "adt" and rv.get("variant"):
@@ -432,6 +458,10 @@ class Scanner:
         # ---- pure helpers
         if last in ASCII_PRED and a0 is not None and a0[0] == "c":
             return ("val", ("b", ASCII_PRED[last](a0[1])), peeked)
+        if last == "contains" and a0 is not None and a0[0] == "arr" and len(args) == 2 and args[1] is not None and args[1][0] == "c":
+            if any(x is None or x[0] != "c" for x in a0[1]):
+                raise Undecided("membership in a table with unknown elements")
+            return ("val", ("b", any(x[1] == args[1][1] for x in a0[1])), peeked)
         if last in ("is_some", "is_none") and a0 is not None and a0[0] == "v":
             return ("val", ("b", (a0[1] == "Some") == (last == "is_some")), peeked)
         if last in ("eq", "ne") and len(args) == 2 and args[0] is not None and args[1] is not None:
